@@ -249,6 +249,113 @@ def gen_polyeval(kv, stmts, tail, d):
     return '\n'.join(out) + '\n'
 
 
+def gen_ring_lemma(name, vars_, lhs, rhs):
+    """A proof fn `name(vars: real) ensures lhs == rhs` for a polynomial identity with rational coefficients.
+    The body normalises both sides bottom-up: one explicit product expansion (sum of monomials times sum of
+    monomials) per multiplication node, everything else linear.  Untrusted generator: Verus checks every step."""
+    sympy = _sym()
+    syms = {v: sympy.Symbol(v) for v in vars_}
+    atom_text = {syms[v]: v for v in vars_}
+
+    def sym(place):
+        if place not in syms:
+            raise HintError(f'unknown variable {place} in ring lemma {name}')
+        return syms[place]
+
+    def rt(ast):
+        k = ast[0]
+        if k == 'paren':
+            return '(' + rt(ast[1]) + ')'
+        if k == 'num':
+            fr = exprs.num_fraction(ast[1])
+            return f'{fr.numerator}real' if fr.denominator == 1 else f'({fr.numerator}real / {fr.denominator}real)'
+        if k == 'place':
+            return ast[1]
+        if k == 'neg':
+            return f'(-{rt(ast[1])})'
+        if k == 'bin':
+            return f'({rt(ast[2])} {ast[1]} {rt(ast[3])})'
+        raise HintError(f'unsupported node in ring lemma: {ast}')
+
+    def nft(e):
+        return poly_text(sympy.expand(e), atom_text)
+
+    out = []
+
+    def mono_pairs(e):
+        gens = list(atom_text.keys())
+        P = sympy.Poly(sympy.expand(e), *gens)
+        res = []
+        for mon, coef in P.terms():
+            m_ = sympy.Integer(1)
+            for g, ex in zip(gens, mon):
+                m_ = m_ * g ** ex
+            res.append((sympy.Rational(coef), m_))
+        return res
+
+    def mono_list(e):
+        return [nft(c_ * m_) for c_, m_ in mono_pairs(e)]
+
+    def walk(ast):
+        k = ast[0]
+        if k in ('paren', 'neg'):
+            walk(ast[1])
+            if k == 'neg':
+                out.append(f'    assert({rt(ast)} == {nft(exprs.to_sympy(ast, sym))});')
+            return
+        if k == 'bin':
+            walk(ast[2])
+            walk(ast[3])
+            e = sympy.expand(exprs.to_sympy(ast, sym))
+            if ast[1] == '*':
+                ea = sympy.expand(exprs.to_sympy(ast[2], sym))
+                eb = sympy.expand(exprs.to_sympy(ast[3], sym))
+                if ea.is_number or eb.is_number:
+                    out.append(f'    assert({rt(ast)} == {nft(e)});')
+                else:
+                    A, B = rt(ast[2]), rt(ast[3])
+                    ta, tb = mono_list(ea), mono_list(eb)
+                    # distribute one term at a time with lemma_ring_dist (each call is a tiny nonlinear fact)
+                    def psum(ts):
+                        return ' + '.join(f'({x})' for x in ts)
+                    facts = []
+                    for k in range(len(ta), 1, -1):
+                        f_ = f'(({psum(ta[:k-1])}) + ({ta[k-1]})) * ({psum(tb)}) == ({psum(ta[:k-1])}) * ({psum(tb)}) + ({ta[k-1]}) * ({psum(tb)})'
+                        out.append(f'    assert({f_}) by(nonlinear_arith);')
+                        facts.append(f_)
+                    for a_i in ta:
+                        for k in range(len(tb), 1, -1):
+                            f_ = f'({a_i}) * (({psum(tb[:k-1])}) + ({tb[k-1]})) == ({a_i}) * ({psum(tb[:k-1])}) + ({a_i}) * ({tb[k-1]})'
+                            out.append(f'    assert({f_}) by(nonlinear_arith);')
+                            facts.append(f_)
+                    for (ca, ma_) in mono_pairs(ea):
+                        for (cb, mb_) in mono_pairs(eb):
+                            la_, lb_ = nft(ca * ma_), nft(cb * mb_)
+                            pr = nft(sympy.expand(ca * ma_ * cb * mb_))
+                            f_ = f'({la_}) * ({lb_}) == {pr}'
+                            out.append(f'    assert({f_}) by(nonlinear_arith);')
+                            facts.append(f_)
+                    out.append(f'    assert(({psum(ta)}) * ({psum(tb)}) == {nft(e)}) by(nonlinear_arith)\n        requires ' + ',\n                 '.join(facts) + ';')
+                    out.append(f'    assert({A} * {B} == {nft(e)}) by(nonlinear_arith)\n        requires {A} == {psum(ta)}, {B} == {psum(tb)}, ({psum(ta)}) * ({psum(tb)}) == {nft(e)};')
+                    out.append(f'    assert({rt(ast)} == {nft(e)});')
+            elif ast[1] == '/':
+                if not sympy.expand(exprs.to_sympy(ast[3], sym)).is_number:
+                    raise HintError('division by a non-literal in ring lemma')
+                out.append(f'    assert({rt(ast)} == {nft(e)});')
+            else:
+                out.append(f'    assert({rt(ast)} == {nft(e)});')
+
+    la, ra = exprs.parse_expr(lhs), exprs.parse_expr(rhs)
+    el = sympy.expand(exprs.to_sympy(la, sym))
+    er = sympy.expand(exprs.to_sympy(ra, sym))
+    if sympy.expand(el - er) != 0:
+        raise HintError(f'ring lemma {name}: the two sides are not equal polynomials (difference {sympy.expand(el - er)})')
+    walk(la)
+    walk(ra)
+    params = ', '.join(f'{v}: real' for v in vars_)
+    return (f'pub proof fn {name}({params})\n    ensures {rt(la)} == {rt(ra)},\n{{\n' + '\n'.join(out) + '\n}\n')
+
+
 LAST_NF = None
 GENERATORS = {'polyeval': gen_polyeval}
 
